@@ -166,6 +166,19 @@ class Env:
         r = M.dispatch(st, th, f'<{m.group(1)} as Default>::default', [])
         return [('push', st)] if r is None else [('raw', r)]
 
+    def p_Result__unwrap_or_default(s, M, st, th, ci, a):
+        if a[0].variant == 'Ok': return s.ret(st, payload(a[0]))
+        # Err(e): e is dropped, T::default() for the T named in the call (Result::<T, E>::unwrap_or_default)
+        m = re.search(r'Result::<(.+)>::unwrap_or_default$', ci['text'])
+        if not m: return None
+        T = split_top(m.group(1), ',')[0].strip()
+        e = payload(a[0])
+        dv = s.default_value(T)
+        if dv is not None: return s.drop_then_ret(M, st, th, [e], dv)
+        if isinstance(e, Agg) and e is not UNIT: return None          # a user Default impl after a drop: not sequenced by this model
+        r = M.dispatch(st, th, f'<{T} as Default>::default', [])
+        return [('push', st)] if r is None else [('raw', r)]
+
     def p_Option__take(s, M, st, th, ci, a):
         o = s.tgt(M, st, a[0]); M.write(st, a[0], NONE); return s.ret(st, o)
 
@@ -501,6 +514,24 @@ class Env:
         if any(isinstance(v, (Agg, Ref, Opaque)) for v in vals): return None
         return h.startswith('i'), vals
 
+    def _cmp_args(s, M, st, ci, a):
+        """operands of a comparison: integers, or std::time::Duration as its total number of nanoseconds (u128)"""
+        r = s._int_args(M, st, ci, a)
+        if r is not None or ci['self_head'] != 'Duration': return r
+        vals = []
+        for x in a:
+            d = x
+            for _ in range(3):
+                if isinstance(d, Ref): d = M.deref(st, d)
+            if not (isinstance(d, Agg) and d.ty == 'Duration'):
+                import os
+                if os.environ.get('VERIF_DEBUG'): print('cmp_args: not a Duration:', repr(d)[:200])
+                return None
+            secs, nanos = d.f[0], d.f[1]
+            if isinstance(secs, I) and isinstance(nanos, I): vals.append(I(secs.v * 1000000000 + nanos.v, 128))
+            else: vals.append(simp(z3.ZeroExt(64, z(secs)) * z3.BitVecVal(1000000000, 128) + z3.ZeroExt(96, z(nanos))))
+        return False, vals
+
     def _ite(s, c, p, q):
         if isinstance(c, bool): return p if c else q
         return simp(z3.If(c, z(p), z(q)))
@@ -522,7 +553,7 @@ class Env:
             else: outs.append(('ret', st2, s._ite(binop('Lt', x, lo, sg), lo, s._ite(binop('Gt', x, hi, sg), hi, x))))
         return outs
     def t_Ord__cmp(s, M, st, th, ci, a):
-        r = s._int_args(M, st, ci, a)
+        r = s._cmp_args(M, st, ci, a)
         if r is None: return None
         sg, (x, y) = r; outs = []
         for st2, lt in M.fork_on(st, binop('Lt', x, y, sg)):
@@ -536,7 +567,7 @@ class Env:
         return [(k, st2, some(v)) for (k, st2, v) in r]
     def _cmpop(op):
         def f(s, M, st, th, ci, a):
-            r = s._int_args(M, st, ci, a)
+            r = s._cmp_args(M, st, ci, a) if op != 'Eq' else s._int_args(M, st, ci, a)
             if r is None: return None
             sg, (x, y) = r; return s.ret(st, binop(op, x, y, sg))
         return f
@@ -989,7 +1020,8 @@ class Env:
         return s.ret(st, Agg('Instant', [I(t)]))
 
     def p_Instant__elapsed(s, M, st, th, ci, a):
-        return s.ret(st, Agg('Duration', [st.fresh('elapsed_s'), I(0, 32)]))
+        ns = st.fresh('elapsed_ns', 32); st.assume(z3.ULT(ns, 1000000000))
+        return s.ret(st, Agg('Duration', [st.fresh('elapsed_s'), ns]))
 
     def p_Duration__as_nanos(s, M, st, th, ci, a):
         d = s.tgt(M, st, a[0]); secs, nanos = d.f[0], d.f[1]
